@@ -47,13 +47,15 @@ ASSUMPTIONS = [
     "int is 64 bits (certLen < 0 unreachable); configurations are changed through Config.Clone and SetSessionTicketKeys only",
     "histories are sequential (one connection at a time); concurrency is C20's subject",
 ]
-RULE = ("seeded generator (VERIF_SEED): 28 fixed histories pinning each clause of the statement (same config resumes in GM/auto/TLS 1.0-1.2, "
+RULE = ("a handshake that FAILS although a session was offered is accepted only when the driver's control connection (same configurations, "
+        "no session) fails too, or in the cases C16_resume_attempt_outcomes names (stored client certificates no longer verify; forged cached "
+        "version/suite); a tampered ticket must give a silent full handshake. Seeded generator (VERIF_SEED): 28 fixed histories pinning each clause of the statement (same config resumes in GM/auto/TLS 1.0-1.2, "
         "rotation keeping/dropping the old key, suite removed, suite not offered, ClientAuth tightened/loosened, untrusted stored certificate, "
         "tickets disabled and re-enabled, LRU eviction with capacity 1..2, tickets travelling between two configurations sharing a key, "
-        "forged client-side version/suite, tampered ticket, ECDHE-only offers, protocol mismatch) + random histories of 2..6 connections "
+        "forged client-side version/suite, tampered ticket, ECDHE-only offers, protocol mismatch), 27 re-issue histories with client certificates, 28 resumption histories at TLS 1.0/1.1/1.2 over 14 version/suite pairs on plain-TLS and auto-switch servers + random histories of 2..6 connections "
         "over 1..2 server configurations with rotations, suite/ClientAuth/disable changes, client kinds g/t10/t11/t12, client certificates "
         "none/trusted/forged-issuer, cache capacity 1..3, 1..4 cache keys; X: every byte position and every truncation length of a GMSSL-CBC "
-        "ticket replayed end to end, samples for TLS 1.0/1.2, auto-switch, client-auth tickets; S: all 255 values at every position and all "
+        "ticket replayed end to end, every 5th position and every 7th truncation for TLS 1.2, TLS 1.0, auto-switch GM/TLS 1.2/TLS 1.1 tickets plus random samples; S: all 255 values at every position and all "
         "truncations through decryptTicket; T/M/U/L: white-box gate, codec (lengths 0..65535, huge length fields, truncations) and LRU op "
         "sequences. Non-trivial = history with >= 2 connections, or any X/T/S/U/M/L case with non-empty input; distinct = distinct case text")
 
@@ -148,6 +150,7 @@ def _pred_history(f, io):
     conns = []           # per connection: dict(cls, vers, suite, pcc, pcs, origin, snap)
     tickets = {}         # id -> dict(key, origin)
     forged = False
+    forged_names = set()
     ci = 0
     for op in f[4].split(";"):
         a = op.split("/")
@@ -161,6 +164,8 @@ def _pred_history(f, io):
             srv[int(a[1])]["disabled"] = a[2] == "1"
         elif a[0] in ("fv", "fs", "ft"):
             forged = True
+            if a[0] in ("fv", "fs"):
+                forged_names.add(a[1])
         elif a[0] == "c":
             if ci >= len(toks):
                 return False, "no observation for connection %d" % ci
@@ -172,6 +177,19 @@ def _pred_history(f, io):
             if cls not in GOOD:
                 return False, "connection %d: %s (panic / hang / one-sided completion / disagreement): %s" % (ci, cls, toks[ci][:160])
             offer = p[4] if len(p) > 4 else "-"
+            if cls == "E" and offer != "-":
+                # A handshake FAILED although a session was offered.  The statement allows only a resumption or a silent
+                # full handshake; C16_fallback_is_full_handshake / C16_resume_attempt_outcomes leave a failure only when
+                # the same configurations fail without a session too (control connection of the driver), when the
+                # client certificates stored in the ticket no longer verify under the current policy, or when the
+                # client's cached version / suite were forged.
+                ctl = p[5] if len(p) > 5 else "?"
+                stored_untrusted = (offer != "x" and int(offer) in tickets and conns[tickets[int(offer)]["origin"]]["snap"][5] == "u"
+                                    and conns[tickets[int(offer)]["origin"]].get("pcs", "-") != "-" and s["auth"] >= 3)
+                if not (ctl == "E" or a[5] in forged_names or stored_untrusted):
+                    return False, ("connection %d: a session was offered and the handshake FAILED (%s) although the same configurations "
+                                   "complete without a session (control: %s): neither resumed nor a silent full handshake"
+                                   % (ci, ",".join(p[6:])[:160], ctl))
             if cls in ("R", "F"):
                 vers, suite, origin, stored = int(p[1], 16), int(p[2], 16), int(p[3]), p[5] == "1"
                 rec.update(vers=vers, suite=suite, origin=origin, pcc=p[7], pcs=p[8])
@@ -296,5 +314,7 @@ def predicate(f, io):
             return (c2 == "R"), "an unmodified ticket under unchanged configurations was not resumed: " + c2
         if c2.startswith("R"):
             return False, "a modified ticket was resumed"
-        return (c2 in ("F", "E")), "modified ticket: neither a clean full handshake nor an error on both sides: " + c2
+        # the configuration completes without a ticket (the first connection did): C16_fallback_is_full_handshake leaves
+        # only the silent full handshake
+        return (c2 == "F"), "modified ticket: not a silent full handshake (the same configuration completes without a ticket): " + c2
     return False, "unknown case type"
